@@ -5,12 +5,20 @@ import os
 
 import vlib
 
-# (cfg, quick?, max walk length)
+# per property and tier: (cfg, mode); mode "edges" = role A + per-transition emission + edge cover,
+# "model" = role A only (exhaustive, larger bounds), "sim" = role B by seeded TLC simulation
 CONFIGS = {
-    "C01": {"quick": ["AllocMC_tiny.cfg"], "thorough": ["AllocMC_share.cfg", "AllocMC_share3.cfg"]},
-    "C02": {"quick": ["AllocMC_policy.cfg"], "thorough": ["AllocMC_policy.cfg", "AllocMC_policy2.cfg"]},
-    "C11": {"quick": ["AllocMC_count.cfg"], "thorough": ["AllocMC_count.cfg", "AllocMC_share3.cfg"]},
+    "C01": {"quick": [("AllocMC_tiny.cfg", "edges")],
+            "thorough": [("AllocMC_share.cfg", "model"), ("AllocMC_tiny.cfg", "edges"), ("AllocMC_share_sim.cfg", "sim")]},
+    "C02": {"quick": [("AllocMC_policy2.cfg", "edges"), ("AllocMC_policyS.cfg", "edges")],
+            "thorough": [("AllocMC_policy.cfg", "model"), ("AllocMC_policy2.cfg", "edges"), ("AllocMC_policyS.cfg", "edges"),
+                         ("AllocMC_policy_sim.cfg", "sim")]},
+    "C11": {"quick": [("AllocMC_count2.cfg", "edges")],
+            "thorough": [("AllocMC_count.cfg", "model"), ("AllocMC_count2.cfg", "edges"), ("AllocMC_count_sim.cfg", "sim")]},
 }
+SIM = {"num": 4000, "depth": 40}
+
+SAMPLE = {"quick": 90000, "thorough": None}
 
 
 def _norm_al(al):
@@ -55,26 +63,45 @@ def replay_walks(chk, scen_path, domain_path, tag):
 
 
 def judge(chk, obs_path):
-    dst = os.path.join(chk.work, "obs.ndjson")
-    if os.path.abspath(obs_path) != dst:
-        if os.path.exists(dst):
-            os.remove(dst)
-        os.link(obs_path, dst)
-    return vlib.run_judge(chk, "AllocTrace", "AllocTrace.cfg", dst)
+    return vlib.run_judge_parallel(chk, "AllocTrace", "AllocTrace.cfg", obs_path)
 
 
 def run(chk):
     domain_path, _ = vlib.domain_dump(chk)
     prefix = chk.prop + "."
-    for cfg in CONFIGS[chk.prop][chk.tier]:
-        edges, res = vlib.generate_edges(chk, "AllocMC", cfg)
-        if not edges:
-            raise vlib.Inconclusive("no edges from %s: %s" % (cfg, res.out[-800:]))
-        init_key = edges[0][0]
+    for cfg, mode in CONFIGS[chk.prop][chk.tier]:
+        if mode == "model":
+            res = vlib.tlc(chk.work, "AllocMC", cfg, workers=16, timeout=3000, want_json=False)
+            chk.add_model_run(cfg, res)
+            if res.violated:
+                print("MODEL-ONLY: %s violates %s in the design model" % (cfg, res.violated))
+                chk.notes.append("MODEL-ONLY: %s violates %s" % (cfg, res.violated))
+            elif res.error:
+                raise vlib.Inconclusive("TLC %s: %s" % (cfg, res.error))
+            vlib.log("  %s (role A only): %d distinct, %d generated, %.0fs" % (cfg, res.distinct, res.generated, res.wall))
+            continue
+        if mode == "sim":
+            raw, res = vlib.simulate_walks(chk, "AllocMC", cfg, SIM["num"], SIM["depth"], chk.seed)
+            if not raw:
+                raise vlib.Inconclusive("simulation produced no walks: " + res.out[-800:])
+            edges = []
+            walks = []
+            for w in raw:
+                idx = []
+                for o in w:
+                    idx.append(len(edges))
+                    edges.append((vlib.canon(o["pre"]), o["act"], vlib.canon(o["post"])))
+                walks.append(idx)
+            init_key = edges[walks[0][0]][0]
+            left = 0
+            sample = 1
+        else:
+            edges, inits, res = vlib.generate_edges(chk, "AllocMC", cfg)
+            init_key = inits[0]
+            sample = SAMPLE.get(chk.tier)
+            walks, left = vlib.edge_cover_walks(edges, init_key, max_len=40, seed=chk.seed, sample=sample)
         init_state = json.loads(init_key)
-        walks, left = vlib.edge_cover_walks(edges, init_key, max_len=40, seed=chk.seed)
         steps = [[edges[i][1] for i in w] for w in walks]
-        expect = [[edges[i][3] for i in w] for w in walks]
         scen = os.path.join(chk.work, "scen_%s.ndjson" % cfg)
         vlib.write_scenarios(scen, steps, {"layout": init_state["layout"]})
         vlib.log("  %s: %d edges, %d walks, %d steps, %d uncovered" % (cfg, len(edges), len(walks), sum(map(len, walks)), left))
@@ -87,8 +114,15 @@ def run(chk):
             byw.setdefault(o["w"], []).append(o)
         model = {}
         mstates = set()
-        for (pre, act, post, _) in edges:
-            pk, qk = norm_model(json.loads(pre)), norm_model(json.loads(post))
+        ncache = {}
+
+        def nm(k):
+            if k not in ncache:
+                ncache[k] = norm_model(json.loads(k))
+            return ncache[k]
+
+        for (pre, act, post) in edges:
+            pk, qk = nm(pre), nm(post)
             mstates.add(pk)
             mstates.add(qk)
             model.setdefault((pk, stim(act)), set()).add(qk)
@@ -119,7 +153,7 @@ def run(chk):
         chk.cov["traces_validated_against_impl"] += len(walks)
         chk.cov["evaluations"] += nlines
         chk.cov["distinct_nontrivial"] += len(nontrivial)
-        chk.cov["exhaustive"] = (left == 0)
+        chk.cov["exhaustive"] = (left == 0 and sample is None)
         if walks and not chk.cov["samples"]:
             chk.cov["samples"].append({"cfg": cfg, "walk": steps[0][:8], "observations": byw.get("w0", [])[:3]})
         mine = [f for f in fails if any(x.startswith(prefix) for x in f["fails"])]
